@@ -377,6 +377,16 @@ func runAll(c *run.Ctx) {
 			}
 		}
 	}
+	// member / ring counts around powers of two (allocation caps): every member must come back
+	cidx := 0
+	for _, cn := range []int{255, 256, 257, 1023, 1024, 1025, 2049, 4097} {
+		for _, kind := range []int{3, 4, 5} {
+			cidx++
+			cn, kind := cn, kind
+			ct := model.CTypes[cidx%4]
+			c.Case("counts", cidx, func(k *run.K) { checkTree(k, model.SizedTree(kind, cn, ct), false) })
+		}
+	}
 	// typed empties of all 7x4
 	idx := 0
 	for _, typ := range model.Types {
